@@ -123,7 +123,7 @@ def traceProgram (ir : IR) (implLines : List String) : List String :=
   execs.flatMap fun (i, seed, script) =>
     let r := execute ir.program scripted ir.steps seed script 400000 200000
     let evs := r.st.log.toList.map evLine
-    [s!"X {i} {seed}"] ++ evs ++ [outcomeLine r.outcome, s!"S {schedHex seed r.st.k.schedule_}"]
+    [s!"X {i} {seed}"] ++ evs ++ [outcomeLine (ir.finalOutcome r.outcome r.st.k r.st.u), s!"S {schedHex seed r.st.k.schedule_}"]
 
 /-- split a log file into (name, lines) sections -/
 def sections (text : String) : List (String × List String) :=
@@ -175,6 +175,41 @@ def main (args : List String) : IO UInt32 := do
       for l in Driver.enumerateProgram ir ((limit.toNat?).getD 1000) do
         out.putStrLn l
     return 0
+  | ["ref", progFile, limit] =>
+    -- C02: outcome set of the sequentially consistent reference semantics (`ShuttleModel/Ref.lean`)
+    let irs := parseBatch (← IO.FS.readFile progFile)
+    let out ← IO.getStdout
+    for ir in irs do
+      out.putStrLn s!"=== {ir.name}"
+      for l in Driver.refProgram ir ((limit.toNat?).getD 100000) do
+        out.putStrLn l
+    return 0
+  | ["ref", progFile, limit, opts] =>
+    -- opts: comma separated `nospurious` (park never returns without a token), `leaderlast`
+    let irs := parseBatch (← IO.FS.readFile progFile)
+    let out ← IO.getStdout
+    let os := opts.splitOn ","
+    let cfg : Ref.Cfg := { spuriousPark := !os.contains "nospurious", leaderLast := os.contains "leaderlast" }
+    for ir in irs do
+      out.putStrLn s!"=== {ir.name}"
+      for l in Driver.refProgram ir ((limit.toNat?).getD 100000) cfg do
+        out.putStrLn l
+    return 0
+  | ["outcomes", progFile, limit] =>
+    -- C02: outcome set of the model kernel's exhaustively enumerated choice tree
+    let irs := parseBatch (← IO.FS.readFile progFile)
+    let out ← IO.getStdout
+    for ir in irs do
+      out.putStrLn s!"=== {ir.name}"
+      for l in Driver.outcomesProgram ir ((limit.toNat?).getD 1000) do
+        out.putStrLn l
+    return 0
+  | ["c02witness"] =>
+    -- C02: executable half of `incomplete_witness_mpsc_drop` (see `Driver.c02Witness`)
+    let (ls, holds) := Driver.c02Witness
+    for l in ls do
+      IO.println l
+    return (if holds then 0 else 1)
   | ["selftest"] =>
     let ok := Rng.Vectors.rngSelfTest
     IO.println s!"rngSelfTest {ok}"
